@@ -240,6 +240,13 @@ def writer_core(ctx, src):
     u.function(src, CC, r'void StringWriter::write\(const void\* data, size_t size\)',
                new_header='void StringWriter_write(StringWriter* self, const void* data, size_t size)',
                rules=[Rule('self->data.append(', 'vstr_append(&self->data, ', count=1)])
+    # the std::string overload: the whole block (data(), size()) is appended -- whatever way it is written; an append of data.c_str()
+    # stops at the first NUL byte (verif_cstrlen)
+    u.function(src, CC, r'void StringWriter::write\(const string& data\)',
+               new_header='void StringWriter_write_str(StringWriter* self, const vstr* data)',
+               rules=[Rule(r'self->data(?:\.append\(| \+= )data\.c_str\(\)\)?;', 'vstr_append(&self->data, data->data, verif_cstrlen(data->data, data->size));', count=None, regex=True),
+                      Rule(r'self->data(?:\.append\(| \+= )data\)?;', 'vstr_append(&self->data, data->data, data->size);', count=None, regex=True),
+                      Rule(r'self->write\(data\.data\(\), data\.size\(\)\);', 'StringWriter_write(self, data->data, data->size);', count=None, regex=True)])
     # bit writer / reader
     u.function(src, CC, r'size_t BitWriter::size\(\) const', new_header='size_t BitWriter_size(const BitWriter* self)',
                rules=[Rule('self->data.size()', 'vstr_size(&self->data)', count=1)])
@@ -458,6 +465,7 @@ def plan(ctx, pid):
     S('BufferWriter.write', 'h_bw_write', 'BufferWriter_write', 'BufferWriter::write', replace=['verif_memcpy'])
     S('StringWriter.size', 'h_sw_size', 'StringWriter_size', 'StringWriter::size')
     S('StringWriter.write', 'h_sw_write', 'StringWriter_write', 'StringWriter::write', replace=['vstr_append'])
+    S('StringWriter.write(string)', 'h_sw_write_str', 'StringWriter_write_str', 'StringWriter::write(const std::string&)', replace=['vstr_append'])
     S('StringWriter.extend_to', 'h_sw_extend_to', 'StringWriter_extend_to', 'StringWriter::extend_to', replace=['vstr_resize_x'])
     S('StringWriter.extend_by', 'h_sw_extend_by', 'StringWriter_extend_by', 'StringWriter::extend_by', replace=['vstr_resize_x'])
     if pid == 'C01':
